@@ -306,8 +306,12 @@ pub fn strategy() -> BoxedStrategy<Case> {
 pub fn strategy_lexical() -> BoxedStrategy<LCase> {
     gen::fmt_and(|fi| {
         prop_oneof![
-            50 => vocab_term(fi, gen::NameProfile::Main, 3, 12),
-            50 => gen::term(gen::TermOpts { depth: 3, size: 12, ..gen::TermOpts::main(fi) }).prop_map(move |d| lex_of_desc(fi, &d)),
+            35 => vocab_term(fi, gen::NameProfile::Main, 3, 12),
+            35 => gen::term(gen::TermOpts { depth: 3, size: 12, ..gen::TermOpts::main(fi) }).prop_map(move |d| lex_of_desc(fi, &d)),
+            // values outside one vocabulary slot: a copula where a connecter belongs, foreign
+            // prefixes and brackets, odd arities — whatever of them folds must keep its category
+            20 => near_valid_value(fi).prop_map(|v| v.term().clone()),
+            10 => wild_term(fi),
         ]
         .boxed()
     })
